@@ -1,6 +1,7 @@
 use super::Zerv;
 use crate::cli::version::args::ResolvedArgs;
 use crate::error::ZervError;
+use crate::version::zerv::bump::checked_bump;
 use crate::version::zerv::bump::precedence::Precedence;
 use crate::version::zerv::core::{
     PreReleaseLabel,
@@ -20,7 +21,11 @@ impl Zerv {
 
         // 2. Bump + Reset step (atomic operation)
         if let Some(increment) = bump_value {
-            self.vars.post = Some(self.vars.post.unwrap_or(0) + increment as u64);
+            self.vars.post = Some(checked_bump(
+                self.vars.post.unwrap_or(0),
+                increment as u64,
+                "post",
+            )?);
             self.reset_lower_precedence_components(&Precedence::Post)?;
         }
 
@@ -39,7 +44,11 @@ impl Zerv {
 
         // 2. Bump + Reset step (atomic operation)
         if let Some(increment) = bump_value {
-            self.vars.dev = Some(self.vars.dev.unwrap_or(0) + increment as u64);
+            self.vars.dev = Some(checked_bump(
+                self.vars.dev.unwrap_or(0),
+                increment as u64,
+                "dev",
+            )?);
             self.reset_lower_precedence_components(&Precedence::Dev)?;
         }
 
@@ -96,7 +105,11 @@ impl Zerv {
         // 2. Bump + Reset step (atomic operation)
         if let Some(increment) = bump_value {
             if let Some(ref mut pre_release) = self.vars.pre_release {
-                pre_release.number = Some(pre_release.number.unwrap_or(0) + increment as u64);
+                pre_release.number = Some(checked_bump(
+                    pre_release.number.unwrap_or(0),
+                    increment as u64,
+                    "pre-release number",
+                )?);
                 self.reset_lower_precedence_components(&Precedence::PreReleaseNum)?;
             } else {
                 // Create alpha label with the increment when no pre-release exists
@@ -123,7 +136,11 @@ impl Zerv {
 
         // 2. Bump + Reset step (atomic operation)
         if let Some(increment) = bump_value {
-            self.vars.epoch = Some(self.vars.epoch.unwrap_or(0) + increment as u64);
+            self.vars.epoch = Some(checked_bump(
+                self.vars.epoch.unwrap_or(0),
+                increment as u64,
+                "epoch",
+            )?);
             self.reset_lower_precedence_components(&Precedence::Epoch)?;
         }
 
